@@ -6,7 +6,6 @@
 package c18
 
 import (
-	"sync"
 	"bufio"
 	"bytes"
 	"crypto/sha256"
@@ -22,9 +21,12 @@ import (
 	"regexp"
 	"sort"
 	"strings"
+	"sync"
 	"syscall"
 	"time"
 
+	"github.com/dgraph-io/badger"
+	"github.com/honeytrap/honeytrap/storage"
 	"github.com/mimoo/disco/libdisco"
 	"golang.org/x/crypto/ssh"
 
@@ -56,6 +58,10 @@ type run struct {
 	// >0: the injected SIGKILL is restricted (strace -P) to system calls that touch the KillPath-th identity
 	// file of the data directory, as discovered by tracing one complete first start; KillSys counts those
 	KillPath int `json:"kill_at_access_to_identity_file,omitempty"`
+	// KeepItems > 0: this (complete) start only fills the data directory; after it has been stopped, the key-value
+	// store is cut back to the first KeepItems-1 items in the order they were written - the state a kill between
+	// two writes of the first start leaves. The run itself is not judged.
+	KeepItems int `json:"keep_first_items_of_store_plus_one,omitempty"`
 }
 
 type scenario struct {
@@ -129,6 +135,16 @@ func scenarios(tier string, seed int64) []scenario {
 			svcs := allSvc
 			out = append(out, scenario{Kind: "path-kill", Runs: []run{{Services: svcs, KillSys: k, KillPath: pi}, {Services: svcs, Stop: "kill"}, {Services: svcs, Stop: "term"}}})
 		}
+	}
+	// the store cut back to its first n items (every prefix of the first start's writes), then three more starts:
+	// what an interrupted first start leaves is completed by the next start and kept from then on
+	nsp := 9
+	if tier == "thorough" {
+		nsp = 12
+	}
+	for n := 0; n < nsp; n++ {
+		svcs := allSvc
+		out = append(out, scenario{Kind: "store-prefix", Runs: []run{{Services: svcs, Stop: "term", KeepItems: n + 1}, {Services: svcs, Stop: []string{"kill", "term"}[n%2]}, {Services: svcs, Stop: "term"}, {Services: svcs, Stop: "term"}}})
 	}
 	if tier != "thorough" {
 		// kills at the k-th file-system call of a thread of the first start (strace injection): the identity
@@ -735,9 +751,56 @@ func runScenario(k int, sc scenario) scnObs {
 		tf, _ := os.ReadFile(filepath.Join(dir, "data", "token"))
 		ro.TokenFile = string(tf)
 		pr.stop(r.Stop)
+		if r.KeepItems > 0 {
+			pr.gone()
+			total, err := trimStore(filepath.Join(dir, "data"), r.KeepItems-1)
+			if err != nil || r.KeepItems-1 >= total {
+				return scnObs{} // the store has no such prefix (or could not be opened): nothing to judge
+			}
+			ro.Killed = true // not judged: the runs that follow are
+			ro.Tail = fmt.Sprintf("store cut back to the first %d of %d items", r.KeepItems-1, total)
+			_, skip = tokensIn(filepath.Join(dir, "events.log"), 0)
+		}
 		ob.Runs = append(ob.Runs, ro)
 	}
 	return ob
+}
+
+// trimStore opens the key-value store of a stopped server and deletes every item but the first keep ones, in the
+// order they were written (commit versions). It returns the number of items found.
+func trimStore(dataDir string, keep int) (int, error) {
+	opts := badger.DefaultOptions
+	opts.Dir = filepath.Join(dataDir, "badger.db")
+	opts.ValueDir = opts.Dir
+	for _, fn := range storage.PlatformOptions {
+		fn(&opts)
+	}
+	db, err := badger.Open(opts)
+	if err != nil {
+		return 0, err
+	}
+	defer db.Close()
+	type kv struct {
+		key []byte
+		ver uint64
+	}
+	var items []kv
+	db.View(func(txn *badger.Txn) error {
+		it := txn.NewIterator(badger.DefaultIteratorOptions)
+		defer it.Close()
+		for it.Rewind(); it.Valid(); it.Next() {
+			items = append(items, kv{append([]byte(nil), it.Item().Key()...), it.Item().Version()})
+		}
+		return nil
+	})
+	sort.Slice(items, func(a, b int) bool { return items[a].ver < items[b].ver })
+	for i := keep; i < len(items); i++ {
+		k := items[i].key
+		if err := db.Update(func(txn *badger.Txn) error { return txn.Delete(k) }); err != nil {
+			return len(items), err
+		}
+	}
+	return len(items), nil
 }
 
 type params struct {
